@@ -783,4 +783,74 @@ Theorem roundtrip t : supported t = true -> wf_ty t = true ->
   forall v ts rest, has_ty t v -> encode t v = Ok ts -> rest_ok (avoid t) rest ->
   decode t (ts ++ rest) = Ok (v, rest).
 Proof. intros Hs Hw. exact (proj1 (codec_good t Hs Hw)). Qed.
-Print Assumptions roundtrip.
+
+(* what the decoder returns re-encodes to the tags it consumed (on encoder output) *)
+Theorem reencode_identical t : supported t = true -> wf_ty t = true ->
+  forall v ts rest v' rest', has_ty t v -> encode t v = Ok ts -> rest_ok (avoid t) rest ->
+  decode t (ts ++ rest) = Ok (v', rest') -> rest' = rest /\ encode t v' = Ok ts.
+Proof.
+  intros Hs Hw v ts rest v' rest' Hv He Hr Hd.
+  rewrite (roundtrip t Hs Hw v ts rest Hv He Hr) in Hd. injection Hd as <- <-. auto.
+Qed.
+
+(* through APCISequence down to octets (C02 supplies the tag-list round trip) *)
+Theorem pdu_roundtrip els : supported (TSeq els) = true -> wf_ty (TSeq els) = true ->
+  forall v ts, has_ty (TSeq els) v -> encode (TSeq els) v = Ok ts -> forallb wf_tag ts = true ->
+  exists bs, encode_pdu (TSeq els) v = Ok bs /\ decode_pdu (TSeq els) bs = Ok v /\
+             forall v', decode_pdu (TSeq els) bs = Ok v' -> encode_pdu (TSeq els) v' = Ok bs.
+Proof.
+  intros Hs Hw v ts Hv He Hwf.
+  destruct (list_roundtrip ts Hwf) as (bs & Hb & Hd).
+  assert (Hdec : decode_pdu (TSeq els) bs = Ok v).
+  { pose proof (roundtrip (TSeq els) Hs Hw v ts [] Hv He I) as Hrt. rewrite app_nil_r in Hrt.
+    unfold decode_pdu. rewrite Hd. cbn [bind]. cbn [decode] in Hrt.
+    destruct (dec_els decode els ts) as [[fs r]|e]; cbn [bind] in *; [|discriminate].
+    injection Hrt as <- ->. reflexivity. }
+  exists bs. split; [|split].
+  - unfold encode_pdu. rewrite He. exact Hb.
+  - exact Hdec.
+  - intros v' Hd'. rewrite Hdec in Hd'. injection Hd' as <-. unfold encode_pdu. rewrite He. exact Hb.
+Qed.
+
+(* trailing tags are refused *)
+Theorem pdu_trailing_refused els : supported (TSeq els) = true -> wf_ty (TSeq els) = true ->
+  forall v ts x bs, has_ty (TSeq els) v -> encode (TSeq els) v = Ok ts ->
+  rest_ok (avoid (TSeq els)) [x] -> dec_tags bs = Ok (ts ++ [x]) ->
+  decode_pdu (TSeq els) bs = Err TooManyArguments.
+Proof.
+  intros Hs Hw v ts x bs Hv He Hr Hd.
+  pose proof (roundtrip (TSeq els) Hs Hw v ts [x] Hv He Hr) as Hrt.
+  unfold decode_pdu. rewrite Hd. cbn [bind]. cbn [decode] in Hrt.
+  destruct (dec_els decode els (ts ++ [x])) as [[fs r]|e]; cbn [bind] in *; [|discriminate].
+  injection Hrt as _ ->. reflexivity.
+Qed.
+
+(* on encoder output the list loops never run out of fuel *)
+Theorem fuel_enough_on_encodings t : supported t = true -> wf_ty t = true ->
+  forall v ts rest, has_ty t v -> encode t v = Ok ts -> rest_ok (avoid t) rest ->
+  decode t (ts ++ rest) <> Err OutOfFuel.
+Proof.
+  intros Hs Hw v ts rest Hv He Hr. rewrite (roundtrip t Hs Hw v ts rest Hv He Hr). discriminate.
+Qed.
+
+(* the repaired closing-tag branch of Sequence.decode: a required list element in front of a closing
+   tag (or at the end of the tags) is the empty list *)
+Theorem empty_list_before_closing s c x r : cls x = 3 ->
+  dec_el decode (El (TSeqOf s) c false) (x :: r) = Ok (Some (VList []), x :: r)
+  /\ dec_el decode (El (TSeqOf s) c false) [] = Ok (Some (VList []), []).
+Proof. intros Hx. cbn [dec_el]. rewrite Hx. split; reflexivity. Qed.
+
+(* a constructed alternative without a context tag is encoded but cannot be decoded *)
+Theorem unctx_alternative_refused pre t o post x rest :
+  forallb (fun e => match e with El (TAtom k) _ _ => k <=? 12 | _ => false end) pre = true ->
+  is_atomic t = false ->
+  pmatch_any (flat_map first_el pre) x = false ->
+  dec_alts decode (pre ++ El t None o :: post) 0 x rest = Err RuntimeErr.
+Proof.
+  intros Hpre Hat. generalize 0%nat. induction pre as [|e pre IH]; intros n Hm.
+  - cbn [app dec_alts]. destruct t; try discriminate; reflexivity.
+  - cbn [forallb flat_map] in *. split_andb. unfold pmatch_any in Hm. rewrite existsb_app in Hm.
+    apply orb_false_iff in Hm as [Hm1 Hm2].
+    destruct e as [t' c' o']. destruct t'; try discriminate.
+    cbn [app]. rewrite alt_skip; [apply IH; auto| cbn [sup_alt supported]; rewrite andb_true_r; assumption | exact Hm1].
+Qed.
